@@ -27,7 +27,7 @@ Proof. exact allocate_noext. Qed.
 Print Assumptions C10_alloc_fresh_noext.
 
 (* EVERY flag combination, bitmap growth included.  [Full s]: index = maximal zero runs (Inv), geometry, the bitmap's own
-   area marked allocated, header current - the predicate of every reachable state (C10_every_history_good).  When the call
+   area and the header blocks marked allocated, header current - the predicate of every reachable state (C10_every_history_good).  When the call
    returns 0 the region was carved out of a free run of a state sg that differs from s by relocations of the bitmap only:
    [Grown s sg] = every block in use in s (and not part of the old bitmap area) is in use in sg and outside the bitmap area
    of sg.  So the region is disjoint from every live region, from the header and from the bitmap in use. *)
@@ -232,7 +232,8 @@ Proof. exact alloc_hint_fixed. Qed.
 
 (* ---- EVERY HISTORY from a new file (was C10_every_history_good_partial: allocations had to carry NO_EXTEND, no clear, no trim).
    [client_all]: request anything; release / resize only owned ranges; clear as long as it succeeds; sync; close (trim or not) +
-   reopen.  [Full] implies Good, header current, index = maximal zero runs, bitmap area marked allocated (C10_full_facts). *)
+   reopen.  [Full] implies Good, header current, index = maximal zero runs, and the blocks of the bitmap area AND of the file
+   header marked allocated (C10_full_facts) - so, with C10_alloc_fresh, no allocation ever returns one of them. *)
 Theorem C10_every_history_good : forall v bp hl bl mx st ops, fx_lfbk v = true -> 0 <= bp -> bl <= 2 ^ 28 ->
   fst (open_new_max v bp hl bl mx st) = 0 ->
   ok_all (snd (open_new_max v bp hl bl mx st)) ops ->
@@ -245,7 +246,8 @@ Proof. exact run_full. Qed.
 Print Assumptions C10_every_history_good_from.
 Theorem C10_full_facts : forall s, Full s ->
   Good s /\ hdr_current s = true /\ (forall o n, In (n, o) (tree s) <-> is_run (bm s) o n) /\
-  (forall i, in_area s i -> getb (bm s) i = true).
+  (forall i, in_area s i -> getb (bm s) i = true) /\
+  (forall i, 0 <= i < shr (hdrlen s) (bpow s) -> getb (bm s) i = true).
 Proof. exact full_facts. Qed.
 Print Assumptions C10_full_facts.
 (* the bitmap never shrinks along a history (header current, clears succeed): the bound on the outcome bounds every state *)
